@@ -6,6 +6,7 @@ import (
 	"crypto/sha256"
 	"encoding/hex"
 	"fmt"
+	"os"
 	"runtime"
 	"strings"
 
@@ -54,6 +55,16 @@ type xsig struct {
 }
 
 const maxTasks = 8
+
+// privHeight: private key of task slot i. Several keys of the same height above
+// 4 exist so that state shared between key objects of one height (templates,
+// pools) is exercised where the traversal actually uses its shared stack.
+func privHeight(i int) uint8 {
+	if i < 4 {
+		return 6
+	}
+	return 4
+}
 
 func buildFixtures(seed uint64) *Fix {
 	r := core.Derive(seed, "consim", "fixtures")
@@ -132,7 +143,7 @@ func buildFixtures(seed uint64) *Fix {
 	for i := 0; i < maxTasks; i++ {
 		var s [48]byte
 		r.Bytes(s[:])
-		f.Priv = append(f.Priv, xmss.NewXMSSFromSeed(s, 4, xmss.HashFunction(i%3), common.SHA256_2X))
+		f.Priv = append(f.Priv, xmss.NewXMSSFromSeed(s, privHeight(i), xmss.HashFunction(i%3), common.SHA256_2X))
 	}
 	cnt := map[uintptr]int{}
 	for _, k := range f.Priv {
@@ -145,6 +156,9 @@ func buildFixtures(seed uint64) *Fix {
 		if c > 1 {
 			f.keep[p] = true
 		}
+	}
+	if len(f.keep) > 0 && os.Getenv("CONSIM_DEBUG") != "" {
+		fmt.Fprintf(os.Stderr, "consim: note: %d memory regions are shared between distinct private key objects; their per-run copies keep sharing them\n", len(f.keep))
 	}
 	return f
 }
